@@ -1107,7 +1107,7 @@ class GtLtPlugin(TaggingPlugin):
             # If this is a GtLtNode...
             if isinstance(node, self.GtLtNode):
                 # If it's not the last node in the group...
-                if i < lasti:
+                if i < lasti and len(newgroup):
                     prevnode = newgroup[-1]
                     nextnode = group[i + 1]
                     # If previous was a fieldname and next node has text
